@@ -456,6 +456,7 @@ class BaseParser:
         provided_values = {}
         dependencies = set()
         unprovided_fields = set()
+        failed_fields = set()
         options = context.options
 
         for key, value in data.items():
@@ -488,8 +489,12 @@ class BaseParser:
                 continue
 
             provided_values[name] = value
+            errors = len(context.errors)
             parsed = field.parse_value(value, context=context)
             if unprovided(parsed):
+                if len(context.errors) > errors:
+                    # given, and reported by its own (collected) error: not an absent dependency as well
+                    failed_fields.add(name)
                 continue
 
             result[name] = parsed
@@ -523,6 +528,7 @@ class BaseParser:
             diff = dependencies.difference(dependant)
             lack = dependencies.intersection(unprovided_fields)
             lack.update(diff)
+            lack.difference_update(failed_fields)
             if lack:
                 # some dependencies not provided
                 context.handle_error(
@@ -572,6 +578,7 @@ class BaseParser:
         used_alias = set()
         dependencies = set()
         unprovided_fields = set()
+        failed_fields = set()
 
         for key, field in self.fields.items():
             value = unprovided
@@ -630,8 +637,12 @@ class BaseParser:
                     context.handle_error(exc.AbsenceError(item=name))
                 continue
 
+            errors = len(context.errors)
             parsed = field.parse_value(value, context=context)
             if unprovided(parsed):
+                if len(context.errors) > errors:
+                    # given, and reported by its own (collected) error: not an absent dependency as well
+                    failed_fields.add(name)
                 continue
 
             result[name] = parsed
@@ -648,6 +659,7 @@ class BaseParser:
             diff = dependencies.difference(dependant)
             lack = dependencies.intersection(unprovided_fields)
             lack.update(diff)
+            lack.difference_update(failed_fields)
             if lack:
                 # some dependencies not provided
                 context.handle_error(
